@@ -111,8 +111,9 @@ let () =
         let defkey = List.init 16 n_of_int in
         let d = hex_of_n 16 (siphash_sse2 defkey msg) in
         let tpl = if List.mem (List.length msg) [1; 2; 3; 4; 8; 12; 16; 32] then " tpl=" ^ d else "" in
-        print_endline (Printf.sprintf "P plain=%s sse2=%s disp=%s def=%s,%s,%s,%s,%s%s | spec %s" p s s d d d d d tpl
-                         (hex_of_n 16 (sip_spec key msg)))
+        let sp = hex_of_n 16 (sip_spec key msg) in
+        (* ref= : the harness's C++ reference must equal the extracted SPEC (not the model of the code) *)
+        print_endline (Printf.sprintf "P plain=%s sse2=%s disp=%s ref=%s def=%s,%s,%s,%s,%s%s | spec %s" p s s sp d d d d d tpl sp)
       | ["L"; ph; n; chs; _; flag] ->
         if flag <> "1" then print_endline "L skipped" else begin
           let pat = Array.of_list (bytes_of_hex ph) in
